@@ -318,6 +318,8 @@ pub enum Resolver {
     /// like Fixed, but the callback first verifies ANOTHER presentation on the same thread
     /// (a resolver that checks a trust statement before it hands out the key)
     Reentrant(Alg, usize, String, Fmt),
+    /// the issuer's key is a HOLDER key pair (self-issued credentials)
+    HolderKey(Alg, usize),
 }
 
 #[derive(Clone, Debug, PartialEq)]
@@ -365,6 +367,7 @@ pub fn verify_raw(
             Resolver::SecretFromPublic(a, i) => DecodingKey::from_secret(&keys::issuer_public_bytes(*a, *i)),
             Resolver::ByKid(a) => keys::issuer_dec(*a, if header.kid.as_deref() == Some("k0") { 0 } else { 1 }),
             Resolver::Extra(n) => keys::extra_dec(n),
+            Resolver::HolderKey(a, i) => jsonwebtoken::DecodingKey::from_jwk(&keys::holder_jwk(*a, *i)).expect("holder jwk as decoding key"),
             Resolver::Reentrant(a, i, inner, f) => {
                 let a2 = *a;
                 let i2 = *i;
